@@ -7,12 +7,15 @@ C20 — validation is sound: accepted definitions work, bad references are rejec
     on it — no KeyError / ValueError path is reachable;
 (3) the model behind a `<model>_cte` qualifier is recovered for every model name, including names that contain `_cte`
     (the repaired `_model_from_table`).
+(4) a model's formula metrics pass the registration check exactly when they contain no dependency cycle, and then the
+    generator's recursive inlining of each of them finishes (the repaired `_find_model_metric_cycle`).
 Join-path rejection is C10's `joinErrors` theorem.
 -/
 import SideVerif.Layer.Validate
 import SideVerif.Layer.GenSingle
+import SideVerif.Layer.Cycle
 namespace SideVerif
-open Sql Cal
+open Sql Cal Cyc
 
 /-! ### (1) bad references are rejected -/
 
@@ -217,5 +220,161 @@ theorem C20_model_name_kept (models : List (List Char)) (n : List Char) (h : mod
 
 /-- the replaced implementation (`str.replace('_cte', '')`) lost part of such names -/
 example : modelFromTable [] ("my_cte_cte".toList) = "my_cte".toList := by decide
+
+/-! ### (4) circular definitions among a model's formula metrics -/
+
+theorem foldl_depth_none (f : String → Option Nat) (l : List String) :
+    l.foldl (fun acc d => match acc, f d with | some a, some b => some (max a (b + 1)) | _, _ => none) none = none := by
+  induction l with
+  | nil => rfl
+  | cons x xs ih => simpa using ih
+
+theorem foldl_depth_some (f : String → Option Nat) (l : List String) (h : ∀ d ∈ l, (f d).isSome) (a : Nat) :
+    (l.foldl (fun acc d => match acc, f d with | some a, some b => some (max a (b + 1)) | _, _ => none) (some a)).isSome := by
+  induction l generalizing a with
+  | nil => rfl
+  | cons x xs ih =>
+    have hx := h x (List.mem_cons_self ..)
+    obtain ⟨b, hb⟩ := Option.isSome_iff_exists.mp hx
+    simp only [List.foldl_cons, hb]
+    exact ih (fun d hd => h d (List.mem_cons_of_mem _ hd)) _
+
+/-- the cycle search ending with "no cycle" within some fuel means the inlining finishes within the same fuel -/
+theorem depth_of_no_cycle (g : DepGraph) (fuel : Nat) (path : List String) (n : String)
+    (h : hasCycleFrom g fuel path n = false) : (depth g fuel n).isSome := by
+  induction fuel generalizing path n with
+  | zero => simp [hasCycleFrom] at h
+  | succ fuel ih =>
+    unfold hasCycleFrom at h
+    split at h
+    · simp at h
+    · unfold depth
+      apply foldl_depth_some
+      intro d hd
+      have := List.any_eq_false.mp h d hd
+      exact ih (n :: path) d (by simpa using this)
+
+/-- following an edge keeps "no cycle", with the source pushed on the path -/
+theorem no_cycle_step (g : DepGraph) (fuel : Nat) (path : List String) (a b : String) (hb : b ∈ depsOf g a)
+    (h : hasCycleFrom g (fuel + 1) path a = false) : hasCycleFrom g fuel (a :: path) b = false := by
+  unfold hasCycleFrom at h
+  split at h
+  · simp at h
+  · have := List.any_eq_false.mp h b hb
+    simpa using this
+
+theorem no_cycle_mono_path (g : DepGraph) (fuel : Nat) (path : List String) (n x : String)
+    (h : hasCycleFrom g fuel path n = false) : x ∈ path → x ≠ n := by
+  intro hx hxn
+  subst hxn
+  cases fuel with
+  | zero => simp [hasCycleFrom] at h
+  | succ fuel =>
+    unfold hasCycleFrom at h
+    simp at h
+    exact h.1 hx
+
+/-- a walk from `a` to a vertex that is on the path (or is the start itself) contradicts "no cycle" -/
+theorem no_walk_back (g : DepGraph) (k : Nat) (a c : String) (w : Walk g k a c) :
+    ∀ (fuel : Nat) (path : List String), hasCycleFrom g fuel path a = false → c ∈ path ∨ (c = a ∧ 0 < k) → False := by
+  induction w with
+  | refl n =>
+    intro fuel path h hc
+    rcases hc with hc | ⟨_, hk⟩
+    · exact no_cycle_mono_path g fuel path n n h hc rfl
+    · omega
+  | @step k a b c hb w ih =>
+    intro fuel path h hc
+    cases fuel with
+    | zero => simp [hasCycleFrom] at h
+    | succ fuel =>
+      have h' := no_cycle_step g fuel path a b hb h
+      apply ih fuel (a :: path) h'
+      rcases hc with hc | ⟨hca, _⟩
+      · exact Or.inl (List.mem_cons_of_mem _ hc)
+      · exact Or.inl (by rw [hca]; exact List.mem_cons_self ..)
+
+/-- **Rejection is sound.** If the registration check passes, no formula metric of the model lies on a dependency
+cycle of any length (self-references included). -/
+theorem C20_accepted_has_no_cycle (g : DepGraph) (h : acyclic g = true) (n : String) (hn : n ∈ g.map (·.1))
+    (k : Nat) (hk : 0 < k) : ¬ Walk g k n n := by
+  intro w
+  obtain ⟨p, hp, rfl⟩ := List.mem_map.mp hn
+  have := List.all_eq_true.mp h p hp
+  exact no_walk_back g k p.1 p.1 w (g.length + 1) [] (by simpa using this) (Or.inr ⟨rfl, hk⟩)
+
+/-- **Accepted formulas can be inlined.** If the registration check passes, the generator's recursive inlining of every
+formula metric of the model finishes (within nesting depth `g.length + 1`): no RecursionError, no unbounded expansion. -/
+theorem C20_accepted_expansion_terminates (g : DepGraph) (h : acyclic g = true) (n : String) (hn : n ∈ g.map (·.1)) :
+    (depth g (g.length + 1) n).isSome := by
+  obtain ⟨p, hp, rfl⟩ := List.mem_map.mp hn
+  have := List.all_eq_true.mp h p hp
+  exact depth_of_no_cycle g _ [] p.1 (by simpa using this)
+
+/-! completeness: the check refuses only definitions that really contain a cycle (fuel `g.length + 1` is enough) -/
+
+theorem walk_snoc (g : DepGraph) (k : Nat) (a b c : String) (w : Walk g k a b) (hc : c ∈ depsOf g b) : Walk g (k + 1) a c := by
+  induction w with
+  | refl n => exact .step hc (.refl c)
+  | step hb _ ih => exact .step hb (ih hc)
+
+theorem key_of_dep (g : DepGraph) (a b : String) (h : b ∈ depsOf g a) : a ∈ g.map (·.1) := by
+  unfold depsOf at h
+  split at h
+  · rename_i ds hl
+    obtain ⟨l₁, l₂, hg, _⟩ := List.lookup_eq_some_iff.mp hl
+    exact List.mem_map.mpr ⟨(a, ds), by rw [hg]; simp, rfl⟩
+  · simp at h
+
+theorem cycle_of_search (g : DepGraph) (fuel : Nat) (path : List String) (n : String)
+    (h : hasCycleFrom g fuel path n = true)
+    (hnd : path.Nodup) (hkeys : ∀ x ∈ path, x ∈ g.map (·.1))
+    (hwalk : ∀ x ∈ path, ∃ k, 0 < k ∧ Walk g k x n)
+    (hfuel : g.length + 1 ≤ fuel + path.length) :
+    ∃ m k, 0 < k ∧ Walk g k m m := by
+  induction fuel generalizing path n with
+  | zero =>
+    have := List.Nodup.length_le_of_subset hnd (fun x hx => hkeys x hx)
+    simp at this
+    omega
+  | succ fuel ih =>
+    unfold hasCycleFrom at h
+    split at h
+    · rename_i hc
+      have hn : n ∈ path := by simpa using hc
+      obtain ⟨k, hk, w⟩ := hwalk n hn
+      exact ⟨n, k, hk, w⟩
+    · rename_i hc
+      have hn : n ∉ path := by simpa using hc
+      obtain ⟨d, hd, hdc⟩ := List.any_eq_true.mp h
+      apply ih (n :: path) d hdc
+      · exact List.nodup_cons.mpr ⟨hn, hnd⟩
+      · intro x hx
+        rcases List.mem_cons.mp hx with rfl | hx
+        · exact key_of_dep g _ d hd
+        · exact hkeys x hx
+      · intro x hx
+        rcases List.mem_cons.mp hx with rfl | hx
+        · exact ⟨1, by omega, .step hd (.refl d)⟩
+        · obtain ⟨k, hk, w⟩ := hwalk x hx
+          exact ⟨k + 1, by omega, walk_snoc g k x n d w hd⟩
+      · simp; omega
+
+/-- **Nothing else is refused.** A model whose formula metrics contain no dependency cycle passes the check. -/
+theorem C20_acyclic_is_accepted (g : DepGraph) (h : ∀ m k, 0 < k → ¬ Walk g k m m) : acyclic g = true := by
+  unfold acyclic
+  apply List.all_eq_true.mpr
+  intro p _
+  cases hc : hasCycleFrom g (g.length + 1) [] p.1 with
+  | false => rfl
+  | true =>
+    obtain ⟨m, k, hk, w⟩ := cycle_of_search g _ [] p.1 hc List.nodup_nil (by simp) (by simp) (by simp)
+    exact absurd w (h m k hk)
+
+/-- non-vacuity: a chain passes, the defect's witnesses (x ↔ y, a self-reference) do not -/
+example : acyclic [("f0", ["f1"]), ("f1", []), ("f2", ["f0", "f1"])] = true := by decide
+example : acyclic [("x", ["y"]), ("y", ["x"])] = false := by decide
+example : acyclic [("amount", ["amount"])] = false := by decide
+example : depth [("x", ["y"]), ("y", ["x"])] 50 "x" = none := by decide
 
 end SideVerif
